@@ -3,6 +3,7 @@
    stack of enclosing binders; closures capture the same outer identifiers in both modes. *)
 From P2 Require Import Base.Prelude Base.PreludeProofs Lex.Token Syn.Ast Syn.Parse Syn.Render Syn.ParseRel
   Syn.ParseProofs Syn.ParseSound Syn.ParseTotal Syn.ParseCor Syn.Qualify.
+From P2 Require Sem.Syntax Sem.Gen.
 Local Open Scope nat_scope.
 
 Section QP.
@@ -233,3 +234,16 @@ Theorem withmap_before_repair_refuted :
   outers_of (pl_chain rf_m [] []) [[101]%N] (map (qname rf_m [] [SArgs [[101]%N]]) rf_body_lookups) = [rf_m] /\
   outers_of (wm_chain rf_m [] []) [[101]%N] rf_body_lookups = [rf_m].
 Proof. vm_compute. repeat split. Qed.
+
+(* ... and the generator (gen_check of Sem/Gen.v = the error returns of GenerateFunc) rejects the AST with
+   OuterIdents [a] under the arguments [m] ("not found") while it accepts the one with OuterIdents [m] *)
+Definition rf_prog (outer : list str) : P2.Sem.Syntax.ast :=
+  P2.Sem.Syntax.AMethod (P2.Sem.Syntax.AMember (P2.Sem.Syntax.AIdent rf_m) [108]%N) [109; 97; 112]%N
+    [P2.Sem.Syntax.AClosure [[101]%N]
+       (P2.Sem.Syntax.AOp [43]%N (P2.Sem.Syntax.AIdent [101]%N)
+                          (P2.Sem.Syntax.AMember (P2.Sem.Syntax.AIdent rf_m) [97]%N))
+       outer false []].
+Theorem withmap_before_repair_generate_refuted :
+  P2.Sem.Gen.gen_check 50 [Some rf_m] [] (rf_prog (outers_of_old (wm_chain rf_m [] []) [[101]%N] rf_body_lookups)) = false /\
+  P2.Sem.Gen.gen_check 50 [Some rf_m] [] (rf_prog (outers_of (wm_chain rf_m [] []) [[101]%N] rf_body_lookups)) = true.
+Proof. vm_compute. split; reflexivity. Qed.
